@@ -471,7 +471,8 @@ def run(ctx):
                    "harness/cmd/c07 (in-memory ml backend, scripted model, driver) and the add-only overlay exports c07.go in runner/ollamarunner, model, kvcache; "
                    "VerifSubmit copies the 12-line slot-assignment block of (*Server).completion",
                    "python generator and monitor (props/c07.py)"]
-    ctx.assumptions = ["text-only inputs (no multimodal SameBatch groups)", "kvcache.Causal without sliding window behind the kvcache.Cache interface",
+    ctx.assumptions = ["theorems: context size per slot >= 1 (NewInputCache refuses less); every other parameter, the network F and the history are universally quantified",
+                       "text-only inputs (no multimodal SameBatch groups)", "kvcache.Causal without sliding window behind the kvcache.Cache interface",
                        "requests are not cancelled mid-generation", "the network is any function of the history the cache exposes (harness: a hash; theorems: a Section variable)"]
     ctx.proof_stage(["Slots"], "Slots/Properties_C07.v", extra_targets=["Slots/Corr.v"])
     if not ctx.quick():
